@@ -292,11 +292,9 @@ func (c *Cholesky) SolveVecTo(dst *VecDense, b Vector) error {
 		return c.SolveTo(dst.asDense(), b)
 	case RawVectorer:
 		bmat := rv.RawVector()
-		if dst != b {
-			dst.checkOverlap(bmat)
-		}
 		dst.reuseAsNonZeroed(n)
 		if dst != b {
+			dst.checkOverlap(bmat)
 			dst.CopyVec(b)
 		}
 		lapack64.Potrs(c.chol.mat, dst.asGeneral())
@@ -814,10 +812,10 @@ func (ch *BandCholesky) SolveVecTo(dst *VecDense, b Vector) error {
 	if br, bc := b.Dims(); br != n || bc != 1 {
 		panic(ErrShape)
 	}
+	dst.reuseAsNonZeroed(n)
 	if b, ok := b.(RawVectorer); ok && dst != b {
 		dst.checkOverlap(b.RawVector())
 	}
-	dst.reuseAsNonZeroed(n)
 	if dst != b {
 		dst.CopyVec(b)
 	}
@@ -1180,11 +1178,11 @@ func (c *PivotedCholesky) SolveVecTo(dst *VecDense, b Vector) error {
 	if br, bc := b.Dims(); br != n || bc != 1 {
 		panic(ErrShape)
 	}
+	dst.reuseAsNonZeroed(n)
 	if b, ok := b.(RawVectorer); ok && dst != b {
 		dst.checkOverlap(b.RawVector())
 	}
 
-	dst.reuseAsNonZeroed(n)
 	if dst != b {
 		dst.CopyVec(b)
 	}
